@@ -14,8 +14,9 @@ What is asserted (per family, see the functions below):
   * a ring's apex has the requested defect (its own corner-angle sum, 1e-5),
   * dual_mesh of a closed surface swaps |V| and |F|, keeps chi / components, is consistently oriented, face v = ring of v,
   * polyline builders give exactly the stated chains / segments,
-  * history: each case makes two calls with the same argument objects; the second result must be as valid as the first
-    and no argument (nor a shared default Vec, observed through a second defaulted call) may be modified in place.
+  * history: each case makes two calls with the same argument objects and edits the first returned mesh in place in
+    between; the second result must be as valid as the first, no argument (nor a shared default Vec or module-level
+    constant / cache, observed through the second call) may be modified, and the two results must not share state.
 
 NOT asserted: outwardness of the orientation (undocumented, differs between generators; only sphere_fibonacci states it),
 face order, which diagonal triangulates a quad, the colours themselves, `colored`/`triangulate` combined with
@@ -49,9 +50,13 @@ RULE = ("One sub-check per generator family of mouette.procedural (all 20 public
         "harness (platonic solids, prisms, antiprisms, bipyramids, tori, connected sums, unions; split / merge / flip / "
         "1-3 modifications; relabelled), modes barycenter (any case spelling) and circumcenter. Every case calls its "
         "generator TWICE with the same caller-owned argument objects (Vec corners / centres, arrays, input meshes; second "
-        "call with the radius halved where there is one, or with the centre / radius defaulted again, dual_mesh with a second "
-        "drawn mode on the same mesh object); both results get the full oracle, and after each call every argument object is "
-        "compared with an independent snapshot (signature <gen>:argument-mutated). Argument classes: uniform scale 1 / tiny "
+        "call with the radius halved where there is one, a ring defect shifted by 4e-4, or the centre / radius defaulted "
+        "again, dual_mesh with a second drawn mode on the same mesh object). Between the two calls every vertex of the first "
+        "returned mesh is overwritten in place (what a caller may do with its mesh); both results get the full oracle, after "
+        "each call every argument object is compared with an independent snapshot (<gen>:argument-mutated), the second call "
+        "must leave the first result alone and editing the second result must not change the first "
+        "(<gen>:results-share-state; skipped when the results legitimately store the caller's own Vec objects, class "
+        "'result-aliases-argument', whose values are then written back before the second call). Argument classes: uniform scale 1 / tiny "
         "(1e-3..1e-6) / huge (1e3..1e6) with tolerances relative to the scale, integer-typed Vec / arrays, centre and radius "
         "left at their (shared, mutable) defaults. non-trivial = two "
         "resolutions differ, or a boolean switch / n_cover / mode / optional argument is not at its default, or (for "
@@ -111,6 +116,29 @@ class Args:
             self.read[name] = reader
         return self.objs[name]
 
+    def changed(self):
+        out = []
+        for name, o in self.objs.items():
+            try:
+                if self.read[name](o) != self.snap[name]:
+                    out.append(name)
+            except Exception:
+                out.append(name)
+        return out
+
+    def restore(self):
+        """write the snapshot values back into the (same) argument objects"""
+        for name in self.changed():
+            o, sn = self.objs[name], self.snap[name]
+            try:
+                if isinstance(sn, dict):
+                    for i, row in enumerate(sn["V"]):
+                        o.vertices[i][:] = row
+                else:
+                    o[...] = np.array(sn).astype(np.asarray(o).dtype)
+            except Exception:
+                pass
+
     def check_unchanged(self, ctx, pre):
         for name, o in self.objs.items():
             try:
@@ -121,31 +149,86 @@ class Args:
                       f"call #{self.round} changed its argument '{name}' in place: passed {str(self.snap[name])[:200]}, afterwards {str(now)[:200]}")
 
 
-class SecondCallCtx:
-    """proxy used for the second call of a case: same oracles and signatures, messages say that it is the second call"""
+class RecordingCtx:
+    """proxy that records every mesh returned through ctx.call (the generator results of this call round); in the second
+    round it also marks the messages"""
 
-    def __init__(self, ctx):
+    def __init__(self, ctx, store, note=""):
         self._c = ctx
+        self._store = store
+        self._note = note
 
     def __getattr__(self, name):
         return getattr(self._c, name)
 
     def check(self, cond, signature, message="", **detail):
-        return self._c.check(cond, signature, "[second call of the generator in this case, same argument objects] " + str(message), **detail)
+        return self._c.check(cond, signature, self._note + str(message), **detail)
 
     def fail(self, signature, message, **detail):
-        return self._c.fail(signature, "[second call of the generator in this case, same argument objects] " + str(message), **detail)
+        return self._c.fail(signature, self._note + str(message), **detail)
+
+    def call(self, signature, f, *a, **kw):
+        ok, val = self._c.call(signature, f, *a, **kw)
+        if ok and isinstance(val, tuple(classes().values())):
+            self._store.append(val)
+        return ok, val
+
+
+def read_vertices(m):
+    try:
+        return [[float(x) for x in v] for v in m.vertices]
+    except Exception as e:
+        return f"unreadable ({type(e).__name__})"
+
+
+def edit_in_place(m):
+    """what a caller may do with a mesh it received: overwrite every vertex coordinate through the stored arrays"""
+    n = 0
+    try:
+        for i in range(len(m.vertices)):
+            v = m.vertices[i]
+            v[:] = [3.0 * float(x) + 1.0 for x in v]
+            n += 1
+    except Exception:
+        pass
+    return n
 
 
 def two_calls(fn):
-    """run the family oracle twice in one case with the same caller-owned argument objects (round 2: radii halved where
-    the family has one, defaulted arguments defaulted again); after each call the arguments must be unchanged"""
+    """History of one case: call the generator, run the oracle, EDIT THE RETURNED MESH IN PLACE, call the generator again
+    with the same caller-owned argument objects (radius halved / defect shifted by 4e-4 / defaults defaulted again), run the
+    oracle on the second result. After each call the arguments must be unchanged; the second call must not disturb the
+    first result, and (when the results do not legitimately share the caller's own Vec objects) editing the second
+    result must not change the first."""
     def run(case, ctx):
+        gen = str(case.get("gen", "?"))
         A = Args()
-        for k in (1, 2):
-            A.round = k
-            fn(case, ctx if k == 1 else SecondCallCtx(ctx), A)
-            A.check_unchanged(ctx, str(case.get("gen", "?")))
+        res1, res2 = [], []
+        fn(case, RecordingCtx(ctx, res1), A)
+        A.check_unchanged(ctx, gen)
+        edited = sum(edit_in_place(m) for m in res1)
+        if edited:
+            ctx.label("first-result-edited-in-place")
+        aliased = A.changed()
+        if aliased:
+            # the returned mesh stores the caller's own Vec / array objects (aliasing of arguments: C06 / C12, not asserted
+            # here); put the caller's values back so that the second call is made with the arguments of the case
+            ctx.label("result-aliases-argument")
+            A.restore()
+            if A.changed():
+                ctx.discard("aliased arguments could not be restored")
+                return
+        snap1 = [read_vertices(m) for m in res1]
+        A.round = 2
+        fn(case, RecordingCtx(ctx, res2, "[second call of the generator in this case, same argument objects, after the first result was edited in place] "), A)
+        A.check_unchanged(ctx, gen)
+        now1 = [read_vertices(m) for m in res1]
+        ctx.check(now1 == snap1, gen + ":results-share-state", "the second call of the generator changed the vertices of the mesh returned by the first call")
+        if not aliased and res1 and res2:
+            for m in res2:
+                edit_in_place(m)
+            ctx.check([read_vertices(m) for m in res1] == now1, gen + ":results-share-state",
+                      "editing the vertices of the second returned mesh in place changed the mesh returned by the first call (results share coordinate arrays)")
     run.__name__ = fn.__name__
     return run
 
@@ -892,6 +975,8 @@ def build_ring(p, src):
 def fn_ring(case, ctx, A):
     import mouette as M
     N, opn, nc, defect = int(case["N"]), bool(case["open"]), int(case["n_cover"]), float(case["defect"])
+    if A.round == 2:    # a nearby, different request
+        defect = defect + 4e-4 if defect + 4e-4 <= MAX_DEFECT else defect - 4e-4
     ctx.label(f"open={opn}", f"n_cover={nc}", "defect=0" if defect == 0 else "defect=max" if defect >= MAX_DEFECT else "defect>pi" if defect > math.pi else "defect<=pi")
     ctx.nontrivial(opn or nc != 1)
     pre = "ring"
@@ -922,6 +1007,8 @@ def build_flat_ring(p, src):
 def fn_flat_ring(case, ctx, A):
     import mouette as M
     N, nc, defect = int(case["N"]), int(case["n_cover"]), float(case["defect"])
+    if A.round == 2:
+        defect = defect + 4e-4 if defect + 4e-4 <= MAX_DEFECT else defect - 4e-4
     ctx.label(f"n_cover={nc}", "N<3" if N < 3 else "N>=3", "defect=0" if defect == 0 else "defect>0")
     ctx.nontrivial(nc != 1)
     pre = "flat_ring"
